@@ -12,7 +12,8 @@ ill-formed result for some operand:
     bin_op_bytesize(op, rhs) (not of the operand width: comparisons are 1 byte wide)
  R3 corner pairing by monotonicity: Interval::add pairs start+start / end+end, Interval::sub pairs
     start-end / end-start, Interval::signed_mul takes min (max) over ALL FOUR corner products for
-    start (end); the helper used for start computes a minimum, the one for end a maximum; every
+    start (end) on every path (a special case for a constant factor still needs both remaining corners:
+    the sign of the constant decides which one is extreme); the helper used for start computes a minimum, the one for end a maximum; every
     product that reaches a bound has its overflow flag tested on the way; overflow-checked results
     are the only source of bounds
  R4 negation: Interval::int_2_comp crosses the bounds (start=-end, end=-start) and is guarded
@@ -278,28 +279,60 @@ def run(run):
         site = F.loc(fn["body"])
         lits = interval_lits(t)
         prods_all = {fmt(x): x for x in sub(t) if is_call(x, "signed_mult_with_overflow_flag")}
+        def leaves(t, conds=()):
+            """alternatives of a value: descends if-then-else and pushes tuple projections through them"""
+            t = S.value(t)
+            if t[0] == "ite":
+                return leaves(t[2], conds + ((t[1], True),)) + leaves(t[3], conds + ((t[1], False),))
+            if t[0] == "field" and isinstance(t[2], str) and t[2].isdigit():
+                out = []
+                for c2, b in leaves(t[1], conds):
+                    if b[0] == "tuple" and int(t[2]) < len(b[1]):
+                        out.extend(leaves(b[1][int(t[2])], c2))
+                    else:
+                        out.append((c2, ("field", b, t[2])))
+                return out
+            return [(conds, t)]
+
         for lit in lits:
             fs = dict(lit[3])
             used = {}
             for fld, wantk in (("start", "min"), ("end", "max")):
-                v = fs.get(fld)
-                prods = {fmt(x): x for x in sub(v) if is_call(x, "signed_mult_with_overflow_flag")}
-                used.update(prods)
-                pairs = {(corner(x[2][0]), corner(x[2][1])) for x in prods.values()}
-                want = {("L.start", "R.start"), ("L.start", "R.end"), ("L.end", "R.start"), ("L.end", "R.end")}
-                key = "signed_mul|%s" % fld
-                if None in {c for p in pairs for c in p} or not pairs:
-                    run.undecided("R3", key + "|corners", "products %s" % sorted(prods)[:2], site)
-                else:
+                alts = leaves(fs.get(fld))
+                for ai, (conds, v) in enumerate(alts):
+                    sfx = "" if len(alts) == 1 else "|alt%d" % ai
+                    lits_, opaque = C.path_literals(list(conds))
+                    single_rhs = any(a.startswith("eq(") and a.count(".start") == 1 and a.count(".end") == 1 and "self" not in a and val for a, val in lits_)
+                    single_lhs = any(a.startswith("eq(self.") and "self.end" in a and "self.start" in a and val for a, val in lits_)
+                    other_conds = [a for a, val in lits_ if not (a.startswith("eq(") and ".start" in a and ".end" in a)]
+                    prods = {fmt(x): x for x in sub(v) if is_call(x, "signed_mult_with_overflow_flag")}
+                    used.update(prods)
+                    pairs = {(corner(x[2][0]), corner(x[2][1])) for x in prods.values()}
+                    want = {("L.start", "R.start"), ("L.start", "R.end"), ("L.end", "R.start"), ("L.end", "R.end")}
+                    key = "signed_mul|%s%s" % (fld, sfx)
+                    if None in {c for p in pairs for c in p} or not pairs:
+                        run.undecided("R3", key + "|corners", "products %s" % sorted(prods)[:2], site)
+                        continue
                     norm = {(a, b) if a.startswith("L.") else (b, a) for a, b in pairs}
-                    run.check("R3", key + "|corners", norm == want, "the %s bound of the product is folded over the corner products %s; missing %s: the extreme product can be at any of the four corners" % (fld, sorted(norm), sorted(want - norm)), site)
-                helpers = {x[1] for x in sub(v) if is_call(x) and x[1] not in ("signed_mult_with_overflow_flag", "unwrap") and len(x[2]) == 2}
-                kinds = {h: minmax_kind(h) for h in helpers}
-                if len(helpers) == 1 and None not in kinds.values():
-                    k = list(kinds.values())[0]
-                    run.check("R3", key + "|fold", k == wantk, "the %s bound of the product is the %s of the corner products (helper `%s` computes a %s)" % (fld, k, list(helpers)[0], k), site)
-                else:
-                    run.undecided("R3", key + "|fold", "fold helpers %s" % kinds, site)
+                    fix = lambda c: ("R.start" if single_rhs and c == "R.end" else "L.start" if single_lhs and c == "L.end" else c)
+                    norm = {(fix(a), fix(b)) for a, b in norm}
+                    want_n = {(fix(a), fix(b)) for a, b in want}
+                    if norm == want_n:
+                        run.holds("R3", key + "|corners", "", site)
+                    elif opaque or other_conds:
+                        run.undecided("R3", key + "|corners", "corner products %s under conditions %s" % (sorted(norm), sorted(other_conds)[:3]), site)
+                    else:
+                        run.violated("R3", key + "|corners", "the %s bound of the product is taken from the corner products %s only (conditions: %s); missing %s: which corner is extreme depends on the SIGNS of the factors (a negative constant factor reverses the order), which nothing on this path tests" % (fld, sorted(norm), sorted(a for a, _ in lits_) or "none", sorted(want_n - norm)), site)
+                        continue
+                    helpers = {x[1] for x in sub(v) if is_call(x) and x[1] not in ("signed_mult_with_overflow_flag", "unwrap") and len(x[2]) == 2}
+                    kinds = {h: minmax_kind(h) for h in helpers}
+                    if len(norm) == 1:
+                        run.holds("R3", key + "|fold", "single corner", site)
+                    elif len(helpers) == 1 and None not in kinds.values():
+                        k = list(kinds.values())[0]
+                        run.check("R3", key + "|fold", k == wantk, "the %s bound of the product is the %s of the corner products (helper `%s` computes a %s)" % (fld, k, list(helpers)[0], k), site)
+                    else:
+                        run.undecided("R3", key + "|fold", "fold helpers %s" % kinds, site)
             # overflow flags
             flags = C.conds_to(t, lambda x: isinstance(x, tuple) and x[0] == "ite" and C.diverges(x[2]) and any(is_call(y, "new_top") for y in sub(x[2])))
             tested = set()
